@@ -252,6 +252,16 @@ def cases(prop, tier, seed):
                 [['adv', 10], ['reply', 0], ['adv', 10], ['reply', 3], ['adv', 10], ['req', nreq + 1, 0], ['req', nreq + 2, 0], ['adv', 10]] + \
                 [['reply', 0]] * 6 + [['adv', 100]]
         out.append({'kind': 'mux', 'fault_at': {}, 'plans': [['ok', 0]], 'steps': steps, 'rseed': nreq, 'chunk': chunk})
+    # a burst of n requests in flight at once, every one answered (the connection is fully idle, every tag ever
+    # handed out is free again), then a few more requests, overlapping: whatever the pool does with a large idle
+    # free set (trimming, resetting, compacting) must not hand out a reserved tag or a tag twice
+    for nreq in (3, 64, 129, 130, 200, 260):
+      for more in (1, 4):
+        steps = [['open'], ['adv', 20]] + [['req', r + 1, 0] for r in range(nreq)] + [['adv', 10]] + \
+                [['reply', 0]] * nreq + [['adv', 20]] + [['req', nreq + 1 + j, 0] for j in range(more)] + [['adv', 10]] + \
+                [['reply', 0]] * more + [['adv', 20]] + [['req', nreq + 10 + j, 0] for j in range(more + 1)] + [['adv', 10]] + \
+                [['reply', 0]] * (more + 1) + [['adv', 50]]
+        out.append({'kind': 'mux', 'fault_at': {}, 'plans': [['ok', 0]], 'steps': steps, 'rseed': nreq})
     # a long-lived connection whose tag counter is near a boundary of the 24-bit tag space (or of a narrower
     # field): requests in flight below the boundary, then the counter is fast-forwarded, then more requests
     for k in (254, 255, 32766, 65533, 65534, 65535, 8388606, 16777210, 16777211, 16777212):
